@@ -341,6 +341,7 @@ def nrLine (r : NR) (ws : List String) : NR :=
     let mine := showGraph r.net.graph
     if mine == g then r else r.fail s!"wait-for graph: the real map is {g}, the model's is {mine}"
   | ["N", "poisoned", b] => if b == "true" then r.fail "the wait-for graph lock is poisoned" else r
+  | ["N", "earlyTimeout", a, mid, el, d] => r.fail s!"ask {mid} of actor {a} returned Err(Timeout) after {el} ms, before its {d} ms deadline"
   | ["--"] =>
     match r.expectDl with
     | [] => r
